@@ -46,6 +46,12 @@ func (l *DList[T]) Unshift(value T) {
 	newNode.next = &head
 	l.prev = newNode
 
+	// The old first node has been copied: re-point its neighbours to the copy.
+	head.prev = &l.DoubleNode
+	if head.next != nil {
+		head.next.prev = &head
+	}
+
 	// Move the pointer to the new node.
 	l.DoubleNode = *newNode
 }
@@ -89,6 +95,11 @@ func (l *DList[T]) InsertBefore(node *DoubleNode[T], value T) error {
 		newNode.prev.next = newNode
 	} else {
 		newNode.next = &head
+		// The old first node has been copied: re-point its neighbours to the copy.
+		head.prev = &l.DoubleNode
+		if head.next != nil {
+			head.next.prev = &head
+		}
 		// Move the pointer to the new node.
 		l.DoubleNode = *newNode
 	}
@@ -158,6 +169,11 @@ func (l *DList[T]) Delete(node *DoubleNode[T]) error {
 	// Check if the node to be deleted is the head node.
 	if head.Value == node.Value {
 		l.DoubleNode = *head.next
+		// The second node has been copied into the head: fix the back pointers.
+		l.prev = nil
+		if l.next != nil {
+			l.next.prev = &l.DoubleNode
+		}
 		return nil
 	}
 
@@ -191,6 +207,11 @@ func (l *DList[T]) Shift() *DoubleNode[T] {
 	} else {
 		head = head.next
 		l.DoubleNode = *head
+		// The second node has been copied into the head: fix the back pointers.
+		l.prev = nil
+		if l.next != nil {
+			l.next.prev = &l.DoubleNode
+		}
 	}
 
 	return &node
